@@ -12,7 +12,8 @@ def leaf_value(ty, cls, rnd, salt):
     if cls == 0:
         return {"bool": [0], "str": [], "f32": [0, 0, 0, 0], "f64": [0] * 8, "int": [0] * 9}[k]
     if cls == 1:
-        return {"bool": [1], "str": list(b"hi"), "f32": streams.f32(1.5), "f64": list(__import__("struct").pack(">d", 1.5)),
+        # (a text that needs escaping in JSON - parsers copy it - and differs from leaf to leaf: a buffer shared by two must show)
+        return {"bool": [1], "str": list(b'h\n' + bytes([97 + salt % 26, 65 + (salt // 3) % 26]) + b'"'), "f32": streams.f32(1.5), "f64": list(__import__("struct").pack(">d", 1.5)),
                 "int": streams.canon(7)}[k]
     if k == "int":
         t = [streams.canon(v) for v in streams.ints_for(ty)]
@@ -55,7 +56,7 @@ NAMED_UNDER = {"ZeroT": "struct", "ZeroP": "struct", "FoldT": "struct", "FoldObj
 
 # types with user-defined unfolders (harness/gotype_user.go, SFGoType!ExpUser): field kinds of their struct
 USER_UNFOLD = {"UStr": ["string"], "UI64": ["int64"], "UPt": ["int64", "int64"], "UExp": ["int64", "int64"],
-               "UObj": ["string", "int64"], "UProc": ["int64", "int64"], "USelf": ["int64"]}
+               "UObj": ["string", "int64"], "UProc": ["int64", "int64"], "USelf": ["int64"], "UKeys": None}
 
 
 def user_stream(tid, rnd):
@@ -75,6 +76,13 @@ def user_stream(tid, rnd):
         for name, evs in ms:
             out.append(streams.ev("key", rnd.choice(["key", "keyref"]), list(name)))
             out += evs
+        return out + [streams.ev("objE", "objE")]
+    if tid == "UKeys":
+        n = rnd.randrange(5)
+        out = [streams.ev("objS", "objS", (), rnd.choice([n, -1]), "any")]
+        for j in range(n):
+            out.append(streams.ev("key", rnd.choice(["key", "keyref", "keyref"]), list(rnd.choice([b"a", b"b", b"c", b"dd", b"ee", b"", b"long-name-%d" % j]))))
+            out += [rnd.choice([streams.ev("nil", "nil"), streams.ev("bool", "bool", [1]), i64(), streams.ev("str", "strref", list(b"v%d" % j))])]
         return out + [streams.ev("objE", "objE")]
     if tid == "USelf":
         return [streams.ev("objS", "objS", (), rnd.choice([1, -1]), "any"), streams.ev("key", rnd.choice(["key", "keyref"]), list(b"n")),
@@ -108,6 +116,9 @@ def zero_vd(T):
         base["e"] = [zero_vd(T["e"][0]) for _ in range(T["n"])]
     elif k == "struct":
         base["f"] = [zero_vd(f["t"]) for f in T["f"]]
+    elif k == "named" and T["id"] == "UKeys":
+        base["k"] = "struct"
+        base["f"] = [zero_vd(dict(k="slice", e=[dict(k="string")]))]
     elif k == "named" and T["id"] in USER_UNFOLD:
         base["k"] = "struct"
         base["f"] = [zero_vd(dict(k=fk)) for fk in USER_UNFOLD[T["id"]]]
@@ -204,7 +215,8 @@ def stream_for(T, rnd, extras=True, depth=0, nulls=0.0):
         n = rnd.randrange(3)
         out = [streams.ev("objS", "objS", (), n if rnd.random() < 0.5 else -1, "any")]
         for j in range(n):
-            out.append(streams.ev("key", rnd.choice(["key", "keyref"]), list(b"m%d" % j)))
+            # (names differ per nesting depth: a name that leaks from an inner map to an outer one must show)
+            out.append(streams.ev("key", rnd.choice(["key", "keyref"]), list(b"m%d%s" % (j, b"abcdefgh"[depth:depth + 1]))))
             out += stream_for(T["e"][0], rnd, extras, depth + 1, nulls)
         return out + [streams.ev("objE", "objE")]
     if k == "struct":
